@@ -84,8 +84,11 @@ def init (ts : List String) : Option St :=
     let cache ← lookupNat kv "cache" 500
     let rebal ← lookupNat kv "rebal" 0
     let _ ← lookupNat kv "seed" 0
+    -- `ctor=old`: the tree under test has the constructor of before 77efe5ce5 (no clamping of the degrees)
+    let oldCtor := kv.lookup "ctor" == some "old"
     pure { kind := kind, dim := dim, table := m == "table6", dist := dist,
-           g := Gnat.init deg mn mx leaf cache (rebal != 0) }
+           g := if oldCtor then Gnat.initOld deg mn mx leaf cache (rebal != 0)
+                else Gnat.init deg mn mx leaf cache (rebal != 0) }
   | _ => none
 
 /-- parse one point (`dim` tokens) -/
